@@ -1,6 +1,6 @@
 """C20 - stores act as dictionaries, persist definitions, and caches are never stale once invalidated
 (breadth-first search over operation sequences to a fixed point of the canonical store state, per store kind)."""
-import os, json, copy, multiprocessing
+import time, os, json, copy, multiprocessing
 from collections import OrderedDict
 from . import common
 
@@ -248,8 +248,14 @@ def bfs_redis(kind, tier, config="symmetric"):
     states = transitions = 0
     findings = {}
     capped = False
+    t_start = time.time()
     while frontier:
         nxt = []
+        if findings and time.time() - t_start > 150:
+            # a store that already disagrees with the reference is not searched to the bitter end (a defect that lets values pile up
+            # makes the state space unbounded): reported as capped, the counter-examples found stand
+            capped = True
+            break
         for snap, ref, path in frontier:
             states += 1
             for op in ops:
